@@ -346,6 +346,12 @@ class Normaliser:
                 if isinstance(st, ast.Assign) and len(st.targets) == 1 and isinstance(st.targets[0], ast.Name):
                     seen.setdefault(st.targets[0].id, []).append(st.value)
         self.ranges = {k: v[0] for k, v in seen.items() if len(v) == 1 and isinstance(v[0], ast.Call) and isinstance(v[0].func, ast.Name) and v[0].func.id == "range"}
+        # attribute name -> number of stores of that name anywhere in the package
+        self.store_counts: dict[str, int] = {}
+        for t in trees:
+            for x in ast.walk(t):
+                if isinstance(x, ast.Attribute) and isinstance(x.ctx, (ast.Store, ast.Del)):
+                    self.store_counts[x.attr] = self.store_counts.get(x.attr, 0) + 1
         self.counts: dict[str, int] = {}
 
     def hit(self, k: str) -> None:
@@ -1213,6 +1219,7 @@ class Normaliser:
         if isinstance(st, ast.ClassDef):
             saved, self.in_function = self.in_function, 0
             try:
+                self.derived_fields(st)
                 if st.name not in self.subclassed:
                     # @classmethod def make(cls, ..): return cls(..)   ==>   return ClassName(..)     (the class has no subclass in the package)
                     for m in st.body:
@@ -1272,6 +1279,14 @@ class Normaliser:
             ap = ast.Expr(value=ast.Call(func=ast.Attribute(value=copy.deepcopy(tgt.value), attr="append", ctx=ast.Load()), args=[st.value.elts[0]], keywords=[]))
             self.hit("tail-slice-assign->del+append")
             return [ast.fix_missing_locations(ast.copy_location(d, st)), ast.fix_missing_locations(ast.copy_location(ap, st))]
+        if isinstance(st, ast.Assign) and len(st.targets) == 1 and isinstance(st.targets[0], ast.Tuple) and isinstance(st.value, ast.Tuple) \
+                and len(st.targets[0].elts) == len(st.value.elts) >= 2 and all(isinstance(t, ast.Name) for t in st.targets[0].elts) \
+                and all(isinstance(v, (ast.Name, ast.Attribute, ast.Constant)) and _movable(v) for v in st.value.elts) and self.in_function:
+            # a, b = X, Y   ==>   a = X; b = Y        (plain loads that do not mention the names being bound)
+            names_ = {t.id for t in st.targets[0].elts}
+            if len(names_) == len(st.targets[0].elts) and not any(isinstance(x, ast.Name) and x.id in names_ for v in st.value.elts for x in ast.walk(v)):
+                self.hit("parallel-assignment-of-loads->sequential")
+                return [ast.fix_missing_locations(ast.copy_location(ast.Assign(targets=[t], value=v), st)) for t, v in zip(st.targets[0].elts, st.value.elts)]
         if isinstance(st, ast.AnnAssign) and st.value is None and isinstance(st.target, ast.Name) and self.in_function:
             self.hit("bare-local-annotation-dropped")   # `x: T` inside a function neither binds nor evaluates anything
             return []
@@ -1318,6 +1333,9 @@ class Normaliser:
             r = self.try_lookup(st)
             if r is not None:
                 return r
+            r = self.try_getattr(st)
+            if r is not None:
+                return r
         if isinstance(st, ast.If):
             r = self.if_assert(st)
             if r is not None:
@@ -1328,6 +1346,48 @@ class Normaliser:
                 self.hit("inverted-if")
                 st.test, st.body, st.orelse = st.test.operand, st.orelse, st.body
         return [st]
+
+    def derived_fields(self, cls: ast.ClassDef) -> None:
+        """def __init__(self, ..): self.flag = <expression over fields that never change after construction>
+           def m(self): if self.flag: ...          ==>          if <that expression>: ...
+        (the field is stored exactly once in the package, in this __init__; its expression reads only constants and attribute
+        chains of `self` whose attributes no function outside an __init__ ever stores)"""
+        init = next((m for m in cls.body if isinstance(m, ast.FunctionDef) and m.name == "__init__"), None)
+        if init is None:
+            return
+        derived: dict[str, ast.expr] = {}
+        for x in init.body:
+            if not (isinstance(x, ast.Assign) and len(x.targets) == 1 and isinstance(x.targets[0], ast.Attribute) and isinstance(x.targets[0].value, ast.Name)
+                    and x.targets[0].value.id == "self" and isinstance(x.value, (ast.Compare, ast.BoolOp))):
+                continue
+            name = x.targets[0].attr
+            if name in self.mutable_attrs or self.store_counts.get(name, 0) != 1:
+                continue
+            ok = True
+            for y in ast.walk(x.value):
+                if isinstance(y, ast.Name) and y.id != "self":
+                    ok = False
+                elif isinstance(y, ast.Attribute) and y.attr in self.mutable_attrs:
+                    ok = False
+                elif isinstance(y, (ast.Call, ast.Subscript, ast.Lambda, ast.NamedExpr, ast.Await)):
+                    ok = False
+            if ok:
+                derived[name] = x.value
+        if not derived:
+            return
+        n = self
+
+        class T(ast.NodeTransformer):
+            def visit_Attribute(self_, node):  # noqa: N805
+                self_.generic_visit(node)
+                if isinstance(node.ctx, ast.Load) and isinstance(node.value, ast.Name) and node.value.id == "self" and node.attr in derived:
+                    n.hit("derived-field-inlined")
+                    return ast.copy_location(copy.deepcopy(derived[node.attr]), node)
+                return node
+        for m in cls.body:
+            if isinstance(m, (ast.FunctionDef, ast.AsyncFunctionDef)) and m.name != "__init__":
+                T().visit(m)
+                ast.fix_missing_locations(m)
 
     def lazy_call_loop(self, st: ast.For) -> list[ast.stmt] | None:
         """for c in iter(F, S): B                          while True: c = F();  if c == S: break;   B
@@ -1384,6 +1444,21 @@ class Normaliser:
         new = ast.While(test=ast.Constant(value=True), body=body + st.body, orelse=[])
         self.hit("lazy-call-stream-loop->while")
         return [ast.fix_missing_locations(ast.copy_location(new, st))]
+
+    def try_getattr(self, st: ast.Try) -> list[ast.stmt] | None:
+        """try: T = X.name / except AttributeError: T = D     ==>     T = getattr(X, "name", D)"""
+        if st.finalbody or st.orelse or len(st.handlers) != 1 or len(st.body) != 1 or len(st.handlers[0].body) != 1 or st.handlers[0].name:
+            return None
+        h = st.handlers[0]
+        if h.type is None or ast.unparse(h.type) != "AttributeError":
+            return None
+        a, b = st.body[0], h.body[0]
+        if not (isinstance(a, ast.Assign) and isinstance(b, ast.Assign) and len(a.targets) == 1 and len(b.targets) == 1 and isinstance(a.targets[0], ast.Name)
+                and ast.dump(a.targets[0]) == ast.dump(b.targets[0]) and isinstance(a.value, ast.Attribute) and _movable(a.value.value) and _movable(b.value)):
+            return None
+        call = ast.Call(func=ast.Name(id="getattr", ctx=ast.Load()), args=[a.value.value, ast.Constant(value=a.value.attr), b.value], keywords=[])
+        self.hit("try-attr-except-AttributeError->getattr")
+        return [ast.fix_missing_locations(ast.copy_location(ast.Assign(targets=[a.targets[0]], value=call), st))]
 
     def try_lookup(self, st: ast.Try) -> list[ast.stmt] | None:
         if st.finalbody or len(st.handlers) != 1 or len(st.body) != 1 or not _is_keyerror(st.handlers[0].type) or st.handlers[0].name:
@@ -1532,6 +1607,10 @@ class _Expr(ast.NodeTransformer):
             g0 = node.args[1].generators[0]
             self.n.hit("filter(None)->genexp")
             return ast.fix_missing_locations(ast.copy_location(ast.GeneratorExp(elt=node.args[1].elt, generators=[ast.comprehension(target=g0.target, iter=g0.iter, ifs=list(g0.ifs) + [copy.deepcopy(node.args[1].elt)], is_async=0)]), node))
+        # L.copy()  ==>  list(L)       (an attribute that is only ever bound to freshly built lists)
+        if isinstance(f, ast.Attribute) and f.attr == "copy" and not node.args and not node.keywords and isinstance(f.value, ast.Attribute) and f.value.attr in self.n.list_attrs:
+            self.n.hit("list.copy()->list()")
+            return ast.fix_missing_locations(ast.copy_location(ast.Call(func=ast.Name(id="list", ctx=ast.Load()), args=[f.value], keywords=[]), node))
         # X.__contains__(k)  ==>  k in X
         if isinstance(f, ast.Attribute) and f.attr == "__contains__" and len(node.args) == 1 and not node.keywords and not isinstance(node.args[0], ast.Starred) and _movable(f.value):
             self.n.hit("__contains__-call->in")
@@ -1775,10 +1854,64 @@ def desugar_int_enums(trees: list[ast.Module], n: Normaliser) -> None:
         ast.fix_missing_locations(t)
 
 
+def desugar_registration_decorators(trees: list[ast.Module], n: Normaliser) -> None:
+    """def reg(table, key):                         @reg(T, K)                 def f(..): ...
+           def deco(func):                          def f(..): ...     ==>     T[K] = f
+               [assert ..]; table[key] = func; return func
+           return deco
+    (a module-level decorator factory that only files the function in a table; the decorated name stays bound to the function)"""
+    regs: dict[str, tuple[int, int]] = {}
+    for t in trees:
+        for fn in t.body:
+            if not isinstance(fn, ast.FunctionDef) or fn.decorator_list or fn.args.vararg or fn.args.kwarg or fn.args.kwonlyargs or fn.args.defaults:
+                continue
+            body = [x for x in fn.body if not (isinstance(x, ast.Expr) and isinstance(x.value, ast.Constant) and isinstance(x.value.value, str))]
+            if len(body) != 2 or not isinstance(body[0], ast.FunctionDef) or not (isinstance(body[1], ast.Return) and isinstance(body[1].value, ast.Name) and body[1].value.id == body[0].name):
+                continue
+            inner = body[0]
+            if len(inner.args.args) != 1 or inner.args.vararg or inner.args.kwarg or inner.args.kwonlyargs or inner.decorator_list:
+                continue
+            fpar = inner.args.args[0].arg
+            ibody = [x for x in inner.body if not isinstance(x, ast.Assert) and not (isinstance(x, ast.Expr) and isinstance(x.value, ast.Constant))]
+            params = [a.arg for a in fn.args.args]
+            if len(ibody) != 2 or not (isinstance(ibody[1], ast.Return) and isinstance(ibody[1].value, ast.Name) and ibody[1].value.id == fpar):
+                continue
+            a = ibody[0]
+            if not (isinstance(a, ast.Assign) and len(a.targets) == 1 and isinstance(a.targets[0], ast.Subscript) and isinstance(a.targets[0].value, ast.Name)
+                    and isinstance(a.targets[0].slice, ast.Name) and isinstance(a.value, ast.Name) and a.value.id == fpar
+                    and a.targets[0].value.id in params and a.targets[0].slice.id in params):
+                continue
+            regs[fn.name] = (params.index(a.targets[0].value.id), params.index(a.targets[0].slice.id))
+    if not regs:
+        return
+
+    def rewrite(body: list[ast.stmt]) -> list[ast.stmt]:
+        out: list[ast.stmt] = []
+        for st in body:
+            if isinstance(st, ast.ClassDef):
+                st.body = rewrite(st.body)
+            if isinstance(st, ast.FunctionDef) and len(st.decorator_list) == 1 and isinstance(st.decorator_list[0], ast.Call) and isinstance(st.decorator_list[0].func, ast.Name) \
+                    and st.decorator_list[0].func.id in regs and not st.decorator_list[0].keywords and not any(isinstance(x, ast.Starred) for x in st.decorator_list[0].args):
+                d = st.decorator_list[0]
+                ti, ki = regs[d.func.id]
+                if max(ti, ki) < len(d.args):
+                    st.decorator_list = []
+                    store = ast.Assign(targets=[ast.Subscript(value=d.args[ti], slice=d.args[ki], ctx=ast.Store())], value=ast.Name(id=st.name, ctx=ast.Load()))
+                    n.hit("registration-decorator->table-store")
+                    out.append(st)
+                    out.append(ast.fix_missing_locations(ast.copy_location(store, st)))
+                    continue
+            out.append(st)
+        return out
+    for t in trees:
+        t.body = rewrite(t.body)
+
+
 def normalise_idioms(trees: list[ast.Module]) -> dict[str, int]:
     n = Normaliser(trees)
     desugar_int_enums(trees, n)
     instantiate_factories(trees, n)
+    desugar_registration_decorators(trees, n)
     for t in trees:
         t.body = n.block(t.body)
         ast.fix_missing_locations(t)
